@@ -180,17 +180,35 @@ def _predicate_body(fi: FuncInfo) -> Optional[List[Tuple[List[Tuple[ast.AST, boo
     """For a small predicate function: list of (path conditions, returned expression) - straight-line
     if/return structure only (no loops, no assignments other than to fresh locals that are not used in tests)."""
     out = []
+    # locals assigned exactly once, at the top level of the body, from an expression without calls that could
+    # have effects other than the pure builtins: they are names for sub-expressions and are substituted away
+    stores: Dict[str, int] = {}
+    for n in own_nodes(fi):
+        if isinstance(n, ast.Name) and isinstance(n.ctx, ast.Store):
+            stores[n.id] = stores.get(n.id, 0) + 1
+    env: Dict[str, ast.AST] = {}
+
+    def sub(e):
+        return _Subst({k: clone_ast(v) for k, v in env.items()}).visit(clone_ast(e)) if env else e
 
     def walk(stmts, conds):
         for i, s in enumerate(stmts):
             if isinstance(s, ast.Expr) and isinstance(s.value, ast.Constant):
                 continue  # docstring
+            if isinstance(s, (ast.Assign, ast.AnnAssign)) and s.value is not None:
+                tg = s.targets[0] if isinstance(s, ast.Assign) and len(s.targets) == 1 else (s.target if isinstance(s, ast.AnnAssign) else None)
+                pure = all(isinstance(c.func, ast.Name) and c.func.id in ("isinstance", "len", "any", "all", "type", "hasattr", "getattr") for c in ast.walk(s.value) if isinstance(c, ast.Call))
+                if isinstance(tg, ast.Name) and stores.get(tg.id) == 1 and tg.id not in fi.params and pure and not conds:
+                    env[tg.id] = sub(s.value)
+                    continue
+                return None
             if isinstance(s, ast.Return):
-                out.append((list(conds), s.value if s.value is not None else ast.Constant(value=None)))
+                out.append((list(conds), sub(s.value) if s.value is not None else ast.Constant(value=None)))
                 return True
             if isinstance(s, ast.If):
                 from .cfg import facts_false, facts_true
 
+                s = ast.If(test=sub(s.test), body=s.body, orelse=s.orelse)
                 t_done = walk(s.body, conds + facts_true(s.test))
                 e_done = walk(s.orelse, conds + facts_false(s.test)) if s.orelse else False
                 rest = stmts[i + 1:]
@@ -652,11 +670,16 @@ class Event:
         return Facts(ctx.analysis(self.owner), self.call, binding=self.binding)
 
 
-def call_events(ctx: TermCtx, fi: FuncInfo, pred: Callable[[str], bool], depth: int = 2, _stack=()) -> List[Event]:
+def call_events(ctx: TermCtx, fi: FuncInfo, pred: Callable[[str], bool], depth: int = 2) -> List[Event]:
     """Calls whose callee's simple name satisfies pred, made by fi or - with parameters substituted by the
     actual arguments - by the private helpers it calls.  `site` is the CFG node *in fi* at which the event
     happens (the call itself, or the call of the helper that contains it); `must` says the event lies on every
-    normal path through the helper(s) between their entry and exit."""
+    normal path through the helper(s) between their entry and exit.  A helper that calls one of its own
+    parameters (`visitor(node)`) yields the event of the bound method it was handed (`self.generic_visit`)."""
+    return [e for e in _call_events(ctx, fi, pred, depth, ()) if not e.name.startswith("<param>")]
+
+
+def _call_events(ctx: TermCtx, fi: FuncInfo, pred: Callable[[str], bool], depth: int, _stack) -> List[Event]:
     from .terms import subst
 
     model = ctx.model
@@ -679,6 +702,10 @@ def call_events(ctx: TermCtx, fi: FuncInfo, pred: Callable[[str], bool], depth: 
                 except AnalysisError:
                     recv = None
             out.append(Event(nm, args, kws, node, True, (), c, fi, recv))
+        elif isinstance(f, ast.Name) and f.id in fi.params and _stack:
+            args = tuple(strip_sites(fa.term_of(a)) for a in c.args)
+            kws = tuple((k.arg, strip_sites(fa.term_of(k.value))) for k in c.keywords)
+            out.append(Event("<param>" + f.id, args, kws, node, True, (), c, fi, None))
         # descend into private helpers
         g = None
         if isinstance(f, ast.Name):
@@ -697,12 +724,24 @@ def call_events(ctx: TermCtx, fi: FuncInfo, pred: Callable[[str], bool], depth: 
             binding[("param", g.pos_params[0])] = ("param", fi.pos_params[0])
         for p_, a in zip(params, c.args):
             binding[("param", p_)] = strip_sites(fa.term_of(a))
+        va = getattr(g.node.args, "vararg", None)
+        if va is not None and not any(isinstance(a, ast.Starred) for a in c.args):
+            binding[("param", va.arg)] = ("tuple", tuple(strip_sites(fa.term_of(a)) for a in c.args[len(params):]))
         for k in c.keywords:
             if k.arg:
                 binding[("param", k.arg)] = strip_sites(fa.term_of(k.value))
-        for ev in call_events(ctx, g, pred, depth - 1, _stack + (fi.qual,)):
+        from .terms import splice_literals
+
+        for ev in _call_events(ctx, g, pred, depth - 1, _stack + (fi.qual,)):
             must = ev.must and ga.cfg.postdominates(ev.site, ga.cfg.entry)
-            out.append(Event(ev.name, tuple(subst(a, binding) for a in ev.args), tuple((k, subst(v, binding)) for k, v in ev.kwargs), node, must, (g.name,) + ev.via, ev.call, ev.owner, subst(ev.recv, binding) if ev.recv is not None else None, {**binding, **{k: subst(v, binding) for k, v in ev.binding.items()}} if ev.binding else dict(binding)))
+            if ev.name.startswith("<param>"):
+                b = binding.get(("param", ev.name[len("<param>"):]))
+                if b is None or b[0] != "attr" or not pred(b[2]):
+                    continue
+                ev = Event(b[2], ev.args, ev.kwargs, ev.site, ev.must, ev.via, ev.call, ev.owner, b[1], ev.binding)
+                out.append(Event(ev.name, tuple(splice_literals(subst(a, binding)) for a in ev.args), tuple((k, splice_literals(subst(v, binding))) for k, v in ev.kwargs), node, must, (g.name,) + ev.via, ev.call, ev.owner, ev.recv, {**binding, **{k: subst(v, binding) for k, v in ev.binding.items()}} if ev.binding else dict(binding)))
+                continue
+            out.append(Event(ev.name, tuple(splice_literals(subst(a, binding)) for a in ev.args), tuple((k, splice_literals(subst(v, binding))) for k, v in ev.kwargs), node, must, (g.name,) + ev.via, ev.call, ev.owner, subst(ev.recv, binding) if ev.recv is not None else None, {**binding, **{k: subst(v, binding) for k, v in ev.binding.items()}} if ev.binding else dict(binding)))
     return out
 
 
@@ -774,3 +813,39 @@ def site_owner(model: Model, ctx: TermCtx, fi: FuncInfo, callee_name: str):
     if skip and fi.pos_params:
         inv[("param", fi.pos_params[0])] = ("param", g.pos_params[0])
     return g, inv
+
+
+def init_attr(ctx: TermCtx, model: Model, cls, pred: Callable[[Term], bool], what: str) -> str:
+    """name of the one attribute that cls.__init__ (through the MRO) initialises with a value satisfying pred - the
+    way rules find "the stack", "the table" of a class without knowing what it is called"""
+    init = model.find_method(cls, "__init__")
+    if init is None:
+        raise AnalysisError(f"{cls.name} has no __init__: cannot identify {what}")
+    fa = ctx.analysis(init)
+    names = []
+    for n in own_nodes(init):
+        tg = None
+        if isinstance(n, ast.Assign) and len(n.targets) == 1:
+            tg = n.targets[0]
+        elif isinstance(n, ast.AnnAssign) and n.value is not None:
+            tg = n.target
+        if isinstance(tg, ast.Attribute) and isinstance(tg.value, ast.Name) and tg.value.id == init.pos_params[0] and pred(strip_sites(fa.term_of(n.value))):
+            names.append(tg.attr)
+    if len(set(names)) != 1:
+        raise AnalysisError(f"cannot identify {what}: candidates {sorted(set(names))}")
+    return names[0]
+
+
+def reaches(cfg, first, second) -> bool:
+    """some path leads from CFG node `first` to `second`"""
+    seen = set()
+    st = [x for x, _ in first.succ]
+    while st:
+        x = st.pop()
+        if x is second:
+            return True
+        if id(x) in seen:
+            continue
+        seen.add(id(x))
+        st.extend(y for y, _ in x.succ)
+    return False
